@@ -591,6 +591,20 @@ func (s *scen) stalledSubscription(e *srvx.Episode) {
 		}
 		e.Infra = ""
 		e.NoChannel = true // no end-of-scenario canary: the verdict is above
+		// the model: the goroutine received d notifications before it stalled; the channel holds 100
+		if d := blockedAt - 1 - 100; d >= 0 && d <= 2*blockedAt {
+			x.Line = fmt.Sprintf("notify %d %d", d, blockedAt)
+			s.ex = append(s.ex, extra{Line: fmt.Sprintf("notify %d %d", d, blockedAt-1), Impl: "served", Case: "the write before"})
+			after := "served"
+			if c2 != nil {
+				after = "blocked"
+			}
+			s.ex = append(s.ex, extra{Line: fmt.Sprintf("notifyafterclose %d %d", d, blockedAt), Impl: after, Case: "another client after the stalled connection was closed"})
+		} else {
+			x.Line = fmt.Sprintf("notify 0 %d", blockedAt) // fewer than 100 queued notifications cannot block: let the model object
+		}
+	} else {
+		x.Line = "notify 0 400"
 	}
 	s.ex = append(s.ex, x)
 }
@@ -847,7 +861,7 @@ func main() {
 		r.Notes = append(r.Notes, "scenarios that took more than 10 s: "+strings.Join(slow, ", "))
 	}
 	var want []string
-	want = append(want, "canary-ok", "out:ok", "out:fault", "extra:hang:blocked", "extra:signedchunk:noresponse", "extra:browsecls:plain")
+	want = append(want, "canary-ok", "out:ok", "out:fault", "extra:hang:blocked", "extra:notify:blocked", "extra:notifyafterclose:blocked", "extra:signedchunk:noresponse", "extra:browsecls:plain")
 	sort.Strings(want)
 	for _, b := range want {
 		if r.Distribution[b] == 0 && o.Replay == "" {
